@@ -88,5 +88,162 @@ fn main() {
             rep.sample(json!({"ops": case["ops"], "expected_recv": want}));
         }
     }
+    // ---- concurrent senders (the property quantifies over every interleaving of concurrent senders with the single consumer). A send is
+    // atomic in PrunableQueue.tla, so every interleaving is one of the sequences TLC checked; whatever the order, once all senders are
+    // done the invariants OnePerSenderKind, OnlyValid, KeepsMax, NothingLost fix the CONTENT of the queue: per slot exactly the
+    // highest-view valid message sent. (a) the channel type itself with the BFT selection rule over cheap values and a selection
+    // function that dawdles (widens every window between a check and the update it guards); (b) the real create_input_channel().
+    use std::sync::{Arc, Barrier};
+    use zksync_concurrency::sync::prunable_mpsc::{self, SelectionFunctionResult};
+    #[derive(Clone, Debug, PartialEq)]
+    struct M {
+        slot: u8,
+        view: u32,
+        valid: bool,
+    }
+    let judge = |sent: &[(u8, u32, bool)], pending: &[(u8, u32, bool)]| -> Option<String> {
+        for (i, p) in pending.iter().enumerate() {
+            if !p.2 {
+                return Some(format!("OnlyValid: an invalid message is pending: {p:?}"));
+            }
+            if pending.iter().skip(i + 1).any(|q| q.0 == p.0) {
+                return Some(format!("OnePerSenderKind: two messages of one sender and kind are pending: {pending:?}"));
+            }
+        }
+        let mut slots: Vec<u8> = sent.iter().filter(|m| m.2).map(|m| m.0).collect();
+        slots.sort();
+        slots.dedup();
+        for sl in slots {
+            let max = sent.iter().filter(|m| m.2 && m.0 == sl).map(|m| m.1).max().unwrap();
+            match pending.iter().find(|p| p.0 == sl) {
+                None => return Some(format!("NothingLost: valid messages were sent for slot {sl} but none is pending")),
+                Some(p) if p.1 != max => return Some(format!("KeepsMax: slot {sl} retains view {} although view {max} was sent", p.1)),
+                _ => {}
+            }
+        }
+        None
+    };
+    let conc = catch(|| {
+        use rand::{Rng, SeedableRng};
+        let mut rng = rand::rngs::StdRng::seed_from_u64(99);
+        let mut rounds = 0u64;
+        for round in 0..300u64 {
+            let (tx, mut rx) = prunable_mpsc::channel(
+                |m: &M| m.valid,
+                |old: &M, new: &M| {
+                    // dawdle: a few hundred nanoseconds of work inside the selection function
+                    let mut x = 0u64;
+                    for i in 0..(200 + (new.view as u64 % 7) * 100) {
+                        x = x.wrapping_mul(31).wrapping_add(i);
+                    }
+                    std::hint::black_box(x);
+                    if old.slot != new.slot {
+                        SelectionFunctionResult::Keep
+                    } else if old.view < new.view {
+                        SelectionFunctionResult::DiscardOld
+                    } else {
+                        SelectionFunctionResult::DiscardNew
+                    }
+                },
+            );
+            let tx = Arc::new(tx);
+            let barrier = Arc::new(Barrier::new(4));
+            let lists: Vec<Vec<M>> = (0..4).map(|_| (0..40).map(|_| M { slot: rng.gen_range(0..3), view: rng.gen_range(1..1000), valid: rng.gen_bool(0.9) }).collect()).collect();
+            let sent: Vec<(u8, u32, bool)> = lists.iter().flatten().map(|m| (m.slot, m.view, m.valid)).collect();
+            let hs: Vec<_> = lists
+                .into_iter()
+                .map(|l| {
+                    let (tx, barrier) = (tx.clone(), barrier.clone());
+                    std::thread::spawn(move || {
+                        barrier.wait();
+                        for m in l {
+                            tx.send(m);
+                        }
+                    })
+                })
+                .collect();
+            for h in hs {
+                h.join().unwrap();
+            }
+            let mut pending = vec![];
+            rt.block_on(async {
+                loop {
+                    let cctx = root.with_timeout(time::Duration::milliseconds(0));
+                    let fut = rx.recv(&cctx);
+                    tokio::pin!(fut);
+                    let mut got = None;
+                    for _ in 0..5 {
+                        tokio::select! { biased; r = &mut fut => { got = r.ok(); break; }, _ = tokio::task::yield_now() => {} }
+                    }
+                    match got {
+                        Some(m) => pending.push((m.slot, m.view, m.valid)),
+                        None => break,
+                    }
+                }
+            });
+            rounds += 1;
+            if let Some(e) = judge(&sent, &pending) {
+                return (rounds, Some((format!("concurrent senders on sync::prunable_mpsc (round {round}): {e}"), json!({"mode": "queue_concurrent", "round": round, "pending": format!("{pending:?}")}))));
+            }
+        }
+        // (b) the real input channel of the consensus component: 3 senders x 6 views, every thread sends all of them in its own order
+        let msgs: Vec<(u8, u32, SMsg)> = (1..=3usize).flat_map(|sx| (1..=6u64).map(move |v| (sx, v))).map(|(sx, v)| (sx as u8, v as u32, mk(&json!({"s": sx, "k": "commit", "v": v, "ok": true})))).collect();
+        for round in 0..6u64 {
+            let (tx, mut rx) = create_input_channel();
+            let tx = Arc::new(tx);
+            let barrier = Arc::new(Barrier::new(4));
+            let hs: Vec<_> = (0..4u64)
+                .map(|t| {
+                    let (tx, barrier) = (tx.clone(), barrier.clone());
+                    let mut mine = msgs.clone();
+                    use rand::seq::SliceRandom;
+                    mine.shuffle(&mut rand::rngs::StdRng::seed_from_u64(round * 10 + t));
+                    std::thread::spawn(move || {
+                        barrier.wait();
+                        for (_, _, m) in mine {
+                            let (ack, _r) = oneshot::channel();
+                            tx.send(FromNetworkMessage { msg: m, ack });
+                        }
+                    })
+                })
+                .collect();
+            for h in hs {
+                h.join().unwrap();
+            }
+            let sent: Vec<(u8, u32, bool)> = msgs.iter().map(|m| (m.0, m.1, true)).collect();
+            let mut pending = vec![];
+            rt.block_on(async {
+                loop {
+                    let cctx = root.with_timeout(time::Duration::milliseconds(0));
+                    let fut = rx.recv(&cctx);
+                    tokio::pin!(fut);
+                    let mut got = None;
+                    for _ in 0..5 {
+                        tokio::select! { biased; r = &mut fut => { got = r.ok(); break; }, _ = tokio::task::yield_now() => {} }
+                    }
+                    match got {
+                        Some(req) => {
+                            let id = ident(&req.msg);
+                            pending.push((id["s"].as_u64().unwrap() as u8, id["v"].as_u64().unwrap() as u32, true));
+                        }
+                        None => break,
+                    }
+                }
+            });
+            rounds += 1;
+            if let Some(e) = judge(&sent, &pending) {
+                return (rounds, Some((format!("concurrent senders on create_input_channel() (round {round}): {e}"), json!({"mode": "queue_concurrent", "round": round, "pending": format!("{pending:?}")}))));
+            }
+        }
+        (rounds, None)
+    });
+    match conc {
+        Err(p) => rep.fail("queue_panic", format!("concurrent phase panicked: {p}"), json!({"mode": "queue_concurrent"})),
+        Ok((rounds, Some((what, tag)))) => {
+            rep.add("queue_concurrent_rounds", rounds);
+            rep.fail("queue_concurrent_invariant", what, tag)
+        }
+        Ok((rounds, None)) => rep.add("queue_concurrent_rounds", rounds),
+    }
     rep.write(&a[1]);
 }
